@@ -161,23 +161,40 @@ Theorem node_record_roundtrip : forall r rest, rec_ok r -> dec_rec (enc_rec r ++
 Proof. exact dec_rec_enc. Qed.
 Print Assumptions node_record_roundtrip.
 
-(** Storing an in-memory state (fresh or just deserialised) with [store_update] and
-    following the references from the root loads the same tree, and the hash stored with
-    the root (and, by the same statement for every subtree, with every node) is the hash
-    of the tree.  PARTIAL: states that already have parts in the backing store
-    (incremental [store_update]) are tied by the correspondence only. *)
-Theorem store_load_roundtrip_partial : forall (sha256 : list N -> list N),
+(** [store_update] of a state that is consistent with the backing store ([consistent]: every
+    node / long value that carries a reference really is at that reference - true for a state
+    in memory, and re-established by this very theorem for the state kept in memory and for
+    the state [load_from_location] returns, so it covers chains of store / load / store):
+    the top record names the root record, following the references from it loads the same
+    tree, and the hash stored with the root (and, since [loads] holds for every stored
+    subtree, with every node) is the hash of the tree.  (That [freeze] after modifications
+    of a stored state yields a consistent state again is tied by the correspondence.) *)
+Theorem store_load_roundtrip : forall (sha256 : list N -> list N),
   (forall x, length (sha256 x) = 32%nat) ->
   forall t st st' kept loaded top,
   store_update sha256 (Some t) st = (st', kept, loaded, top) ->
-  in_memory t = true -> tree_ok t -> bounded st -> s_next st' < 2 ^ 64 ->
+  tree_ok t -> bounded st -> consistent sha256 st t -> s_next st' < 2 ^ 64 ->
   erase_root kept = Some (erase t) /\ erase_root loaded = Some (erase t)
-  /\ load_raw st' top = Some (1 :: be64 (match root_ref loaded with Some x => x | None => 0 end))
-  /\ exists x, root_ref loaded = Some x
-     /\ forall fuel, (theight (erase t) <= fuel)%nat ->
-          load_node fuel st' x = Some (erase t, hash_node sha256 (erase t)).
-Proof. exact store_update_loads. Qed.
-Print Assumptions store_load_roundtrip_partial.
+  /\ (exists x, root_ref loaded = Some x /\ load_raw st' top = Some (1 :: be64 x)
+                /\ loads sha256 st' x (erase t))
+  /\ bounded st'
+  /\ (match kept with Some k => consistent sha256 st' k | None => False end)
+  /\ (match loaded with Some l => consistent sha256 st' l | None => False end).
+Proof. exact store_update_incremental. Qed.
+Print Assumptions store_load_roundtrip.
+
+Theorem in_memory_is_consistent : forall (sha256 : list N -> list N) st t,
+  in_memory t = true -> consistent sha256 st t.
+Proof. exact (fun sha st => proj1 (in_memory_consistent_mut sha st)). Qed.
+Print Assumptions in_memory_is_consistent.
+
+(** The record-level store and the bytes: in a store built by [store_raw] (records below
+    2^64 bytes) the byte-level loader ([Loader::load_raw]: seek, BE64 length, slice) finds
+    every record at its reference. *)
+Theorem store_bytes_readable : forall st, built st ->
+  forall r d, load_raw st r = Some d -> read_at (flatten st) r = Some d.
+Proof. exact read_at_load. Qed.
+Print Assumptions store_bytes_readable.
 
 (** [migrate] writes the whole tree to the new store; the migrated state has the same
     contents, and loading it from the new store gives the same tree with the same hashes. *)
@@ -195,6 +212,12 @@ Theorem migrate_preserves : forall (sha256 : list N -> list N),
      end.
 Proof. exact migrate_loads. Qed.
 Print Assumptions migrate_preserves.
+
+Theorem migrate_bytes_readable : forall (sha256 : list N -> list N) r st' r',
+  migrate sha256 r empty_store = (st', r') -> s_next st' < 2 ^ 64 ->
+  forall x d, load_raw st' x = Some d -> read_at (flatten st') x = Some d.
+Proof. exact PersistProofs.migrate_bytes_readable. Qed.
+Print Assumptions migrate_bytes_readable.
 
 (** Every record written by [serialize] is read back by the record reader of
     [deserialize].  PARTIAL: the breadth-first reassembly of the tree from the records is
